@@ -31,6 +31,7 @@ import (
 	"testing"
 	"time"
 
+	"Havoc/pkg/agent"
 	"Havoc/pkg/handlers"
 
 	"pgregory.net/rapid"
@@ -680,8 +681,6 @@ func run(c Case, report func(*core.Violation)) {
 	h, rec, stop := startListener(c.Cfg)
 	defer stop()
 	rec.Take()
-	feat := cfgFeatures(c.Cfg)
-
 	for i, r := range c.Reqs {
 		agentID := uint32(0x0C120000 + i + 1)
 		w := httptest.NewRecorder()
@@ -695,86 +694,94 @@ func run(c Case, report func(*core.Violation)) {
 				admitted = true
 			}
 		}
-		v := judge(c.Cfg, r)
-		where := fmt.Sprintf("request %d (%s %q ua=%v/%q headers=%v peer=%s mut=%q) against cfg %+v", i, r.Method, r.URI, r.HasUA, r.UA, r.Headers, r.Peer, r.Mut, c.Cfg)
+		assess(c.Cfg, r, i, agentID, w, admitted, newSessions, fmt.Sprint(ev), "", "", report)
+	}
+}
 
-		if admitted && v.MustReject {
-			report(core.V("admit|"+strings.Join(v.Reasons, "+"), "%s reached the agent protocol although it violates: %v", where, v.Reasons))
-			continue
-		}
-		if !admitted && v.MustAdmit {
-			report(core.V("reject|satisfying|"+feat, "%s satisfies every configured constraint (canonical Demon form) but was not admitted: status %d, events %v", where, w.Code, ev))
-			continue
-		}
-		if !admitted {
-			if w.Code != http.StatusNotFound {
-				report(core.V("reject|status-not-404|"+r.Method, "%s was not admitted but answered %d instead of the decoy 404", where, w.Code))
-				continue
-			}
-			if len(ev) > 0 || len(newSessions) > 0 {
-				report(core.V("reject|side-effect", "%s got the 404 but changed state: events %v", where, ev))
-				continue
-			}
-			continue
-		}
+// assess judges one served request against the configuration in force (cfg) and
+// reports what contradicts the statement.  pre/post qualify the signatures (sub-check h).
+func assess(cfg Cfg, r Req, i int, agentID uint32, w *httptest.ResponseRecorder, admitted bool, newSessions []*agent.Agent, ev string, pre, post string, report0 func(*core.Violation)) {
+	report := func(v *core.Violation) { v.Sig = pre + v.Sig + post; report0(v) }
+	feat := cfgFeatures(cfg)
+	v := judge(cfg, r)
+	where := fmt.Sprintf("request %d (%s %q ua=%v/%q headers=%v peer=%s mut=%q) against cfg %+v", i, r.Method, r.URI, r.HasUA, r.UA, r.Headers, r.Peer, r.Mut, cfg)
 
-		// ---- admitted
-		if len(newSessions) != 1 || newSessions[0] == nil {
-			report(core.V("admit|session-count", "%s: %d sessions created", where, len(newSessions)))
-			continue
+	if admitted && v.MustReject {
+		report(core.V("admit|"+strings.Join(v.Reasons, "+"), "%s reached the agent protocol although it violates: %v", where, v.Reasons))
+		return
+	}
+	if !admitted && v.MustAdmit {
+		report(core.V("reject|satisfying|"+feat, "%s satisfies every configured constraint (canonical Demon form) but was not admitted: status %d, events %v", where, w.Code, ev))
+		return
+	}
+	if !admitted {
+		if w.Code != http.StatusNotFound {
+			report(core.V("reject|status-not-404|"+r.Method, "%s was not admitted but answered %d instead of the decoy 404", where, w.Code))
+			return
 		}
-		s := newSessions[0]
-		if s.NameID != fmt.Sprintf("%08x", agentID) {
-			report(core.V("admit|wrong-agent", "%s: session %s created, sent id %08x", where, s.NameID, agentID))
-			continue
+		if ev != "[]" || len(newSessions) > 0 {
+			report(core.V("reject|side-effect", "%s got the 404 but changed state: events %v", where, ev))
+			return
 		}
-		var idLE [4]byte
-		binary.LittleEndian.PutUint32(idLE[:], agentID)
-		wantBody := demonref.XCrypt(idLE[:], key, iv) // Demon: TransportInit decrypts the answer and compares it with its id
-		if w.Code != http.StatusOK || !bytes.Equal(w.Body.Bytes(), wantBody) {
-			report(core.V("admit|bad-reply", "%s: admitted but answered %d %x, want 200 %x", where, w.Code, w.Body.Bytes(), wantBody))
-			continue
-		}
-		// response headers with their full values
-		res := w.Result()
-		for _, rh := range c.Cfg.RespHeaders {
-			n, want := splitCfgHeader(rh)
-			vals := res.Header.Values(n)
-			ok := false
-			for _, got := range vals {
-				if strings.Trim(got, " \t") == want {
-					ok = true
-				}
+		return
+	}
+
+	// ---- admitted
+	if len(newSessions) != 1 || newSessions[0] == nil {
+		report(core.V("admit|session-count", "%s: %d sessions created", where, len(newSessions)))
+		return
+	}
+	s := newSessions[0]
+	if s.NameID != fmt.Sprintf("%08x", agentID) {
+		report(core.V("admit|wrong-agent", "%s: session %s created, sent id %08x", where, s.NameID, agentID))
+		return
+	}
+	var idLE [4]byte
+	binary.LittleEndian.PutUint32(idLE[:], agentID)
+	wantBody := demonref.XCrypt(idLE[:], key, iv) // Demon: TransportInit decrypts the answer and compares it with its id
+	if w.Code != http.StatusOK || !bytes.Equal(w.Body.Bytes(), wantBody) {
+		report(core.V("admit|bad-reply", "%s: admitted but answered %d %x, want 200 %x", where, w.Code, w.Body.Bytes(), wantBody))
+		return
+	}
+	// response headers with their full values
+	res := w.Result()
+	for _, rh := range cfg.RespHeaders {
+		n, want := splitCfgHeader(rh)
+		vals := res.Header.Values(n)
+		ok := false
+		for _, got := range vals {
+			if strings.Trim(got, " \t") == want {
+				ok = true
 			}
-			if !ok {
-				sig := "resp-header|missing"
-				if strings.Contains(want, ":") {
-					sig = "resp-header|value-cut|value-has-colon" // absent altogether when the value starts with ':'
-				} else if len(vals) > 0 {
-					sig = "resp-header|value-altered"
-				}
-				report(core.V(sig, "%s: configured response header %q arrived as %q", where, rh, vals))
-				continue
-			}
 		}
-		// sender address
-		if s.Info == nil {
-			report(core.V("admit|no-info", "%s: session without Info", where))
+		if !ok {
+			sig := "resp-header|missing"
+			if strings.Contains(want, ":") {
+				sig = "resp-header|value-cut|value-has-colon" // absent altogether when the value starts with ':'
+			} else if len(vals) > 0 {
+				sig = "resp-header|value-altered"
+			}
+			report(core.V(sig, "%s: configured response header %q arrived as %q", where, rh, vals))
 			continue
 		}
-		if c.Cfg.BehindRedir {
-			if r.XFF != "" && s.Info.ExternalIP != r.XFF {
-				report(core.V("external-ip|behind-redirector|not-forwarded-for", "%s: ExternalIP %q, X-Forwarded-For %q", where, s.Info.ExternalIP, r.XFF))
-				continue
-			}
-		} else if s.Info.ExternalIP != peerIP(r.Peer) {
-			sig := "external-ip|" + peerKind(r.Peer)
-			if r.XFF != "" && s.Info.ExternalIP == r.XFF {
-				sig = "external-ip|forwarded-for-trusted-without-redirector"
-			}
-			report(core.V(sig, "%s: ExternalIP %q, peer address %q", where, s.Info.ExternalIP, peerIP(r.Peer)))
-			continue
+	}
+	// sender address
+	if s.Info == nil {
+		report(core.V("admit|no-info", "%s: session without Info", where))
+		return
+	}
+	if cfg.BehindRedir {
+		if r.XFF != "" && s.Info.ExternalIP != r.XFF {
+			report(core.V("external-ip|behind-redirector|not-forwarded-for", "%s: ExternalIP %q, X-Forwarded-For %q", where, s.Info.ExternalIP, r.XFF))
+			return
 		}
+	} else if s.Info.ExternalIP != peerIP(r.Peer) {
+		sig := "external-ip|" + peerKind(r.Peer)
+		if r.XFF != "" && s.Info.ExternalIP == r.XFF {
+			sig = "external-ip|forwarded-for-trusted-without-redirector"
+		}
+		report(core.V(sig, "%s: ExternalIP %q, peer address %q", where, s.Info.ExternalIP, peerIP(r.Peer)))
+		return
 	}
 }
 
